@@ -45,7 +45,10 @@ def encOptNat : Option Nat → Json
 def decodeSpec (j : Json) : Except String Spec := do
   -- `failendpoints` (corpus only): Sync fails on this object in syncEndpoints — for C10 the same as `bad`
   let fe := (J.getBool j "failendpoints").toOption.getD false
-  pure { aliases := ← J.getHexList j "aliases", cert := ← optNat j "cert", ca := ← optNat j "ca",
+  -- `half`: only the certificate or only the key of the pair is in the object: nothing can be served from it
+  let half := ((J.getStr j "half").toOption.getD "") != ""
+  let cert ← optNat j "cert"
+  pure { aliases := ← J.getHexList j "aliases", cert := if half then none else cert, ca := ← optNat j "ca",
          bad := (← J.getBool j "bad") || fe }
 
 def decodeStep (j : Json) : Except String Step := do
